@@ -280,7 +280,14 @@ def pipeline_cases(ctx, tab):
         if plat is not None:
             sid, pcode, sat, (year, doy) = filegen.PLATFORMS[filegen.FMT[fmt]["family"]][plat]
             start = ydm_to_ms(year, doy, rng.randint(0, 86000000 - 20000))
-        tp = timesgen.TimePass(fmt, list(range(1, n + 1)), start)
+        nums_file = list(range(1, n + 1))
+        if k == 4:
+            # records stored OUT OF ORDER across UTC midnight (the second half of the pass in front of the first): the first
+            # record of the file lies on day D+1, later records on day D - date and distance factor are those of the FIRST line
+            fmt, n, sat = "klmGac", 20, "noaa16"
+            nums_file = list(range(11, 21)) + list(range(1, 11))
+            start = ydm_to_ms(2003, 101, 1000)
+        tp = timesgen.TimePass(fmt, nums_file, start)
         if plat is not None:
             b = tp.build(ctx, rng, **({"pod_epoch": filegen.pod_epoch_of(year, doy)} if fmt.startswith("pod") else {}))
             b.sat_id, b.plat = sid, pcode
